@@ -166,7 +166,7 @@ fn run_sched(sc: &Scenario, s: &Sched) -> Out {
                         let mut gcs = 0u64;
                         let g = *gc_every_yield;
                         let (r, y) = js::eval_budgeted(&mut ctx, part, *budget, 20_000_000, |n| {
-                            if g > 0 && n % u64::from(g) == 0 {
+                            if g > 0 && n % u64::from(g) == 0 && gcs < 5000 {
                                 boa_gc::verif::collect_now();
                                 gcs += 1;
                             }
@@ -183,7 +183,7 @@ fn run_sched(sc: &Scenario, s: &Sched) -> Out {
                                     Poll::Pending => {
                                         polls += 1;
                                         out.yields += 1;
-                                        if g > 0 && polls % u64::from(g) == 0 {
+                                        if g > 0 && polls % u64::from(g) == 0 && gcs < 5000 {
                                             boa_gc::verif::collect_now();
                                             gcs += 1;
                                         }
